@@ -41,6 +41,7 @@ type netParams struct {
 	Narrow   bool    `json:"narrow,omitempty"`    // fetch: only the first branch's refspec is given; other branches and tags exist on the remote
 	TagSrc   string  `json:"tag_src,omitempty"`   // push: how the tag's source is spelled: "" (refs/tags/x) | short (x:refs/tags/x) | bare (x) | head (refs/heads/b0:refs/tags/x)
 	FailAt   int     `json:"fail_at,omitempty"`   // C09: a first attempt whose FailAt-th receiver-side store write fails, then the judged attempt
+	Tags2    bool    `json:"tags2,omitempty"`    // a second tag zeta9 (sorting after rel1) that the receiver does not have or has at the same value
 	Shadow   bool    `json:"shadow,omitempty"`   // merge/pull: a second local branch a/<name> exists whose name ends with the merged branch's name
 	TagRel   string  `json:"tag_rel,omitempty"`   // relation forced on the tag: clobber = the receiver's tag sits on an ancestor of the sender's
 	FailFrom bool    `json:"fail_from,omitempty"` // every write from FailAt on fails (disk full) instead of one
@@ -221,6 +222,17 @@ func buildNet(c *fw.Case, env *fw.Env, p *netParams, rng *rand.Rand) (*netWorld,
 		}
 		w.plans = append(w.plans, pl)
 	}
+	if p.Tags && p.Tags2 {
+		r := rng.Intn(p.N)
+		if p.TagSrc == "head" && !strings.HasPrefix(w.plans[0].Name, "tag:") {
+			r = w.plans[0].Remote
+		}
+		pl := branchPlan{Name: "tag:zeta9", Relation: "new", Remote: r, Local: -1}
+		if rng.Intn(4) == 0 {
+			pl.Relation, pl.Local = "equal", r
+		}
+		w.plans = append(w.plans, pl)
+	}
 	// remote repository: memory stores behind the reference server
 	w.remoteDB = mon.NewMemStore()
 	rrs, rsdb, err := mon.NewMemRefStore()
@@ -289,7 +301,7 @@ func buildNet(c *fw.Case, env *fw.Env, p *netParams, rng *rand.Rand) (*netWorld,
 			ref.SaveRef(lh.RS, "heads/b0", h.sums[pl.Remote], "setup", "s@x", "setup", "b0", nil)
 		}
 	}
-	if p.Shadow && (p.Op == "merge" || p.Op == "pull") && len(w.plans) > 0 {
+	if p.Shadow && (p.Op == "merge" || (p.Op == "pull" && len(w.plans) > 0 && w.plans[0].Local >= 0)) && len(w.plans) > 0 {
 		// a branch whose name merely ends with the operated branch's name, somewhere else in the history
 		si := rng.Intn(p.N)
 		if err := h.copyCommitClosure(w.all, lh.DB, si); err != nil {
